@@ -2,6 +2,7 @@ SPECIFICATION Spec
 CONSTANTS MaxEntries = 2
           MaxX = 2
           MaxSel = 1
+          SecondPair = FALSE
 INVARIANT ExtrapolationOK
 INVARIANT ReplaceScoped
 CHECK_DEADLOCK FALSE
